@@ -179,6 +179,11 @@ def build(p):
         return build(p[1]).iterate(n=p[2])
     if op == "iterate_final":
         return build(p[1]).iterate_final(n=p[2])
+    if op == "closure":
+        import jax.numpy as jnp2
+
+        stored = tuple(jnp2.asarray(x, dtype=jnp2.int32) for x in p[2])
+        return build(p[1])(*stored)          # a GenerativeFunctionClosure
     if op in ("masked_iterate", "masked_iterate_final"):
         inner = build(p[1])
         g = inner.masked_iterate() if op == "masked_iterate" else inner.masked_iterate_final()
